@@ -114,6 +114,70 @@ theorem C12_emitted_aligned (pre : Bytes) (hpre : pre.length % 4 = 0) (cs : List
   obtain ⟨body, h1, h2, h3, _⟩ := encChunks_roundtrip pre hpre cs hwf
   exact ⟨body, h1, h2, h3⟩
 
+/-! ### type dispatch (against the tables the translator reads off the Go source) -/
+
+/-- the model accepts exactly the chunk types `packet.unmarshal` has a `case` for, and each of them is
+decoded into the struct that case instantiates -/
+theorem C12_dispatch_chunks :
+    (∀ t : Byte, knownChunkType t = (Gen.packetUnmarshalDispatch.map (·.1)).contains t.toNat) ∧
+    (∀ e ∈ Gen.packetUnmarshalDispatch,
+      (match decBody (byteOf e.1) 0 (probeValue e.1) with | .ok c => c.goStruct | _ => "rejected") = e.2) := by
+  constructor
+  · decide
+  · decide
+
+/-- `buildParam`: exactly the parameter types of the Go switch, each built into the struct of its case;
+every other type is `ErrParamTypeUnhandled` whatever the bytes -/
+theorem C12_dispatch_params :
+    (∀ e ∈ Gen.buildParamDispatch,
+      (match buildParam (trunc16 e.1) (probeParam e.1) with | .ok (p, _) => p.goStruct | _ => "rejected") = e.2) ∧
+    (∀ (typ : BitVec 16) (raw : Bytes), (Gen.buildParamDispatch.map (·.1)).contains typ.toNat = false →
+      buildParam typ raw = .err .ErrParamTypeUnhandled) := by
+  constructor
+  · decide
+  · intro typ raw h
+    have hne : ∀ n : Nat, n < 65536 → n ∈ Gen.buildParamDispatch.map (·.1) → typ ≠ BitVec.ofNat 16 n := by
+      intro n hn hmem he
+      subst he
+      have : (Gen.buildParamDispatch.map (·.1)).contains (BitVec.ofNat 16 n).toNat = true := by
+        simp only [BitVec.toNat_ofNat, Nat.mod_eq_of_lt hn]
+        exact List.contains_iff_mem.mpr hmem
+      rw [this] at h; cases h
+    unfold buildParam
+    simp only [pt_fwdtsn, pt_supext, pt_ecn, pt_random, pt_hmac, pt_chunklist, pt_cookie, pt_hb, pt_outreset,
+      pt_reconfresp, pt_zerock]
+    rw [if_neg (hne 49152 (by omega) (by decide)), if_neg (hne 32776 (by omega) (by decide)),
+      if_neg (hne 32768 (by omega) (by decide)), if_neg (hne 32770 (by omega) (by decide)),
+      if_neg (hne 32772 (by omega) (by decide)), if_neg (hne 32771 (by omega) (by decide)),
+      if_neg (hne 7 (by omega) (by decide)), if_neg (hne 1 (by omega) (by decide)),
+      if_neg (hne 13 (by omega) (by decide)), if_neg (hne 16 (by omega) (by decide)),
+      if_neg (hne 32769 (by omega) (by decide))]
+
+/-- `buildErrorCause`: the cause codes of the Go switch select the struct of their case, every other code
+the plain header struct -/
+theorem C12_dispatch_causes :
+    (∀ e ∈ Gen.buildErrorCauseDispatch,
+      (match buildErrorCause [byteOf (e.1 / 256), byteOf e.1, 0, 4] with | .ok (c, _) => c.kind.goStruct | _ => "rejected") = e.2) ∧
+    (∀ (a b : Byte), (Gen.buildErrorCauseDispatch.map (·.1)).contains (u16 a b).toNat = false →
+      (match buildErrorCause [a, b, 0, 4] with | .ok (c, _) => c.kind.goStruct | _ => "rejected") = "errorCauseHeader") := by
+  constructor
+  · decide
+  · intro a b h
+    have hne : ∀ n : Nat, n < 65536 → n ∈ Gen.buildErrorCauseDispatch.map (·.1) → u16 a b ≠ BitVec.ofNat 16 n := by
+      intro n hn hmem he
+      rw [he] at h
+      have : (Gen.buildErrorCauseDispatch.map (·.1)).contains (BitVec.ofNat 16 n).toNat = true := by
+        simp only [BitVec.toNat_ofNat, Nat.mod_eq_of_lt hn]
+        exact List.contains_iff_mem.mpr hmem
+      rw [this] at h; cases h
+    have h7 := hne 7 (by omega) (by decide); have h6 := hne 6 (by omega) (by decide)
+    have h13 := hne 13 (by omega) (by decide); have h12 := hne 12 (by omega) (by decide)
+    have hcu := causeHeaderUnmarshal_cons a b 0 4 [] [] (by decide)
+    simp only [List.append_nil, List.length_nil, Nat.add_zero] at hcu
+    unfold buildErrorCause
+    simp only [u16At_zero, ok_bind, hcu, cc_invparam, cc_unrec, cc_pviol, cc_uabort, h7, h6, h13, h12, ↓reduceIte]
+    rfl
+
 /-! ### re-encode stability -/
 
 /-- RE-ENCODE STABILITY, PARTIAL. Full strength would be: for EVERY accepted packet. That is false in
